@@ -217,7 +217,7 @@ var c20rLifetimesMs = []int64{0, 1, 499, 500, 59499, 59500, 60000, 61000, 119499
 	3601000, 7140000, 7199000, 57600000, 86340000, 86400000, 3888000000}
 
 func TestVerif_C20R(t *testing.T) {
-	res := newVerifResult("random recorder histories (record auth / certificate / service-provider login / web login for 3 users, time passing by seconds .. 40 days incl. steps that put an entry exactly at retention-1/retention/retention+1, hourly expiry, save -> reload, read-out) against the real eventrecorder functions; event-loop scenarios through New(), the six channels, history requests, the 5 s save timer and restarts (E=event R=request S=save X=restart); non-trivial = a reload or expiry that had something to drop or at least two entries to keep in order; distinct by (operation kinds, ages)")
+	res := newVerifResult("random recorder histories (record auth / certificate / service-provider login / web login for 3 users, time passing by seconds .. 40 days incl. steps that put an entry exactly at retention-1/retention/retention+1, the clock stepped BACK by seconds .. more than the retention so that entries are stamped ahead of the clock and lists leave creation order, an entry at clock-1/clock/clock+1, hourly expiry, save -> reload, read-out) against the real eventrecorder functions; event-loop scenarios through New(), the six channels, history requests, the 5 s save timer and restarts (E=event R=request S=save X=restart); New() on saved history files whose stamps are ahead of the clock; non-trivial = a reload or expiry that had something to drop or at least two entries to keep in order; distinct by (operation kinds, ages)")
 	dir, err := ioutil.TempDir("", "verif_c20r")
 	if err != nil {
 		t.Fatal(err)
